@@ -1,1 +1,203 @@
-// harnesses for automerge/src/sync/state.rs
+// G-SYNCENC (state part): persisted sync state and the read-only switch (child module of
+// automerge::sync::state). Included by /repo/rust/automerge/src/sync/state.rs under cfg(kani).
+use super::*;
+
+fn any_hash() -> ChangeHash {
+    ChangeHash(kani::any())
+}
+
+/// Arbitrary session flags over a fixed container shape: one shared head, one sent head, the peer's
+/// heads / need / have present or absent, one hash sent this session or none, one capability or none.
+fn any_state(h: [ChangeHash; 4]) -> State {
+    let mut sent = BTreeSet::new();
+    if kani::any() {
+        sent.insert(h[3]);
+    }
+    State {
+        shared_heads: vec![h[0]],
+        last_sent_heads: vec![h[1]],
+        their_heads: if kani::any() { Some(vec![h[2]]) } else { None },
+        their_need: if kani::any() { Some(Vec::new()) } else { None },
+        their_have: if kani::any() { Some(Vec::new()) } else { None },
+        sent_hashes: sent,
+        in_flight: kani::any(),
+        have_responded: kani::any(),
+        their_capabilities: if kani::any() { Some(vec![Capability::SyncReset]) } else { None },
+        read_only: kani::any(),
+        peer_read_only: kani::any(),
+        needs_reset: kani::any(),
+    }
+}
+
+/// set_read_only from an arbitrary state: same mode = no-op; read-only -> read-write forgets the
+/// whole session (so nothing skipped is believed sent), keeps the peer's capabilities and asks for
+/// a reset; read-write -> read-only only flips the flag and re-arms the next message.
+#[kani::proof]
+#[kani::unwind(4)]
+fn state_set_read_only_table() {
+    let h = [ChangeHash([1; 32]), ChangeHash([2; 32]), ChangeHash([3; 32]), ChangeHash([4; 32])];
+    let mut s = any_state(h);
+    let was_ro = s.read_only;
+    let (in_flight, responded, peer_ro, needs_reset) = (s.in_flight, s.have_responded, s.peer_read_only, s.needs_reset);
+    let had_caps = s.their_capabilities.is_some();
+    let had_their_heads = s.their_heads.is_some();
+    let had_need = s.their_need.is_some();
+    let had_have = s.their_have.is_some();
+    let n_sent = s.sent_hashes.len();
+    let to: bool = kani::any();
+    s.set_read_only(to);
+    assert!(s.read_only == to);
+    // the peer's advertised capabilities survive every transition
+    assert!(s.their_capabilities.is_some() == had_caps);
+    if let Some(c) = s.their_capabilities.as_ref() {
+        assert!(c.len() == 1 && c[0] == Capability::SyncReset);
+    }
+    assert!(s.peer_supports_sync_reset() == had_caps);
+    if was_ro && !to {
+        // fresh session
+        assert!(s.shared_heads.is_empty());
+        assert!(s.last_sent_heads.is_empty());
+        assert!(s.their_heads.is_none());
+        assert!(s.their_need.is_none());
+        assert!(s.their_have.is_none());
+        assert!(s.sent_hashes.is_empty());
+        assert!(!s.in_flight);
+        assert!(!s.have_responded);
+        assert!(!s.peer_read_only);
+        assert!(s.needs_reset);
+    } else {
+        // session knowledge untouched
+        assert!(s.shared_heads.len() == 1 && s.shared_heads[0].0[0] == 1);
+        assert!(s.last_sent_heads.len() == 1 && s.last_sent_heads[0].0[31] == 2);
+        assert!(s.their_heads.is_some() == had_their_heads);
+        if let Some(t) = s.their_heads.as_ref() {
+            assert!(t.len() == 1 && t[0].0[0] == 3);
+        }
+        assert!(s.their_need.is_some() == had_need);
+        assert!(s.their_have.is_some() == had_have);
+        assert!(s.sent_hashes.len() == n_sent);
+        assert!(s.peer_read_only == peer_ro);
+        assert!(s.needs_reset == needs_reset);
+        if was_ro == to {
+            assert!(s.in_flight == in_flight && s.have_responded == responded);
+        } else {
+            // read-write -> read-only: the next generate must produce a message carrying READ_ONLY
+            assert!(!s.in_flight && !s.have_responded);
+        }
+    }
+    kani::cover!(was_ro && !to && had_caps && n_sent == 1);
+    kani::cover!(!was_ro && to && in_flight);
+    kani::cover!(was_ro == to && in_flight && n_sent == 1);
+    std::mem::forget(s);
+}
+
+/// new() is read-write with nothing pending; new_read_only() differs from it in the flag only.
+#[kani::proof]
+#[kani::unwind(4)]
+fn state_constructors() {
+    let a = State::new();
+    let b = State::new_read_only();
+    assert!(!a.read_only && b.read_only);
+    assert!(!a.needs_reset && !b.needs_reset && !a.in_flight && !b.in_flight);
+    assert!(!a.have_responded && !b.have_responded && !a.peer_read_only && !b.peer_read_only);
+    assert!(a.shared_heads.is_empty() && b.shared_heads.is_empty());
+    assert!(a.last_sent_heads.is_empty() && b.last_sent_heads.is_empty());
+    assert!(a.their_heads.is_none() && b.their_heads.is_none());
+    assert!(a.their_need.is_none() && b.their_need.is_none());
+    assert!(a.their_have.is_none() && b.their_have.is_none());
+    assert!(a.their_capabilities.is_none() && b.their_capabilities.is_none());
+    assert!(a.sent_hashes.is_empty() && b.sent_hashes.is_empty());
+    assert!(!a.peer_supports_sync_reset() && !a.supports_v2_messages() && !a.send_doc());
+    kani::cover!(b.read_only);
+}
+
+fn check_restored(r: &State) {
+    assert!(r.last_sent_heads.is_empty());
+    assert!(r.their_heads.is_none());
+    assert!(r.their_need.is_none());
+    assert!(matches!(r.their_have.as_ref(), Some(v) if v.is_empty()));
+    assert!(r.sent_hashes.is_empty());
+    assert!(!r.in_flight);
+    assert!(!r.have_responded);
+    assert!(r.their_capabilities.is_none());
+    assert!(!r.read_only && !r.peer_read_only && !r.needs_reset);
+}
+
+/// decode(encode(s)) for a state with no shared heads and ANY session flags: the wire form is
+/// [0x43, 0]; the restored state carries no in-flight marker, no sent hashes, no peer knowledge.
+#[kani::proof]
+#[kani::unwind(4)]
+fn state_persist_roundtrip_h0() {
+    let h = [ChangeHash([1; 32]), ChangeHash([2; 32]), ChangeHash([3; 32]), ChangeHash([4; 32])];
+    let mut s = any_state(h);
+    s.shared_heads = Vec::new();
+    let bytes = s.encode();
+    assert!(bytes.len() == 2 && bytes[0] == 0x43 && bytes[1] == 0);
+    match State::decode(&bytes) {
+        Ok(r) => {
+            assert!(r.shared_heads.is_empty());
+            check_restored(&r);
+            kani::cover!(s.in_flight && !r.in_flight);
+            std::mem::forget(r);
+        }
+        Err(_) => panic!("an encoded state must decode"),
+    }
+    std::mem::forget(s);
+    std::mem::forget(bytes);
+}
+
+/// Same with one shared head of ANY value: 34 bytes on the wire, the head comes back bit for bit
+/// (compared at an arbitrary byte index, which covers all 32 without a loop).
+#[kani::proof]
+#[kani::unwind(4)]
+fn state_persist_roundtrip_h1() {
+    let h = any_hash();
+    let mut s = State::new();
+    s.shared_heads = vec![h];
+    s.in_flight = kani::any();
+    s.have_responded = kani::any();
+    s.read_only = kani::any();
+    s.peer_read_only = kani::any();
+    s.needs_reset = kani::any();
+    let bytes = s.encode();
+    assert!(bytes.len() == 34 && bytes[0] == 0x43 && bytes[1] == 1);
+    let k: usize = kani::any();
+    kani::assume(k < 32);
+    assert!(bytes[2 + k] == h.0[k]);
+    match State::decode(&bytes) {
+        Ok(r) => {
+            assert!(r.shared_heads.len() == 1 && r.shared_heads[0].0[k] == h.0[k]);
+            check_restored(&r);
+            kani::cover!(s.in_flight && s.read_only && !r.in_flight);
+            std::mem::forget(r);
+        }
+        Err(_) => panic!("an encoded state must decode"),
+    }
+    std::mem::forget(s);
+    std::mem::forget(bytes);
+}
+
+/// State::decode over EVERY 2-byte and 3-byte input: never panics; accepts exactly [0x43, 0, ..]
+/// (no heads); a non-zero head count without the hashes is "not enough input", never a short state.
+#[kani::proof]
+#[kani::unwind(12)]
+fn state_decode_total_len3() {
+    let b: [u8; 3] = kani::any();
+    let n: usize = kani::any();
+    kani::assume(n == 2 || n == 3);
+    match State::decode(&b[..n]) {
+        Ok(r) => {
+            assert!(b[0] == 0x43 && b[1] == 0);
+            assert!(r.shared_heads.is_empty());
+            check_restored(&r);
+            kani::cover!(n == 3);
+            std::mem::forget(r);
+        }
+        Err(e) => {
+            assert!(b[0] != 0x43 || b[1] != 0);
+            kani::cover!(matches!(e, DecodeError::NotEnoughInput));
+            kani::cover!(matches!(e, DecodeError::WrongType { .. }));
+            std::mem::forget(e);
+        }
+    }
+}
